@@ -6,6 +6,8 @@ pub mod c05;
 pub mod c06;
 pub mod c07;
 pub mod c10;
+pub mod c13;
+pub mod c20;
 pub mod corpus_checks;
 
 use crate::runner::{CaseResult, Ctx, Local};
@@ -27,5 +29,7 @@ pub fn all() -> Vec<Prop> {
         Prop { id: "C06", run: c06::run, replay: c06::replay, self_test: common::self_test_codec },
         Prop { id: "C07", run: c07::run, replay: c07::replay, self_test: common::self_test_codec },
         Prop { id: "C10", run: c10::run, replay: c10::replay, self_test: common::self_test_codec },
+        Prop { id: "C13", run: c13::run, replay: c13::replay, self_test: common::self_test_codec },
+        Prop { id: "C20", run: c20::run, replay: c20::replay, self_test: common::self_test_codec },
     ]
 }
